@@ -10,7 +10,7 @@ from . import nf_common, nfq, tokrules as tr, tok_common
 
 MANIFEST = {
     "text": "Inventory and graph rules: every explicit panic site (panic!/unreachable!/assert!/unwrap/expect/indexing) of the five crates is enumerated from MIR with resolved callees and compared, per function and kind, with a reviewed inventory (a new way to panic is a violation; arithmetic-overflow checks are listed separately); the structural invariants behind the tree builder's sites hold (orig_mode saved before Text / InTableText, template_modes popped only under an open template, pop_until_current sets contain html, the pending-token assertion reachable for tag tokens only); the tokenizers' transitions that consume no input are acyclic and eof_step ends in the single EOF leaf (HTML and XML, char-ref machines included); call-graph cycles are the reviewed ones; feed() answers Done only when run() saw a suspension and eat() drains the whole queue when it asks for more input. The tree builder's non-consuming transfers (Reprocess results, self.step delegations) are a reviewed inventory and, per token class, acyclic among transfers that leave the stack alone (R04.7); in xml5ever phase Main implies a non-empty stack of open elements (R04.8).",
-    "note": 'Decides R04.1-R04.8. Not decided: termination of the transfers that pop (their measure is the stack depth) and of stack loops in the tree builder, allocation failure, that the listed invariants hold dynamically where no structural rule exists; 4 GB tendril length limit. Also decided: finish_numeric is total (R04.8); end() un-consumes into the queue it runs (R04.5). Round 6: the meta scanner never indexes with offsets found in a re-sized copy (R04.9).',
+    "note": 'Decides R04.1-R04.8. Not decided: termination of the transfers that pop (their measure is the stack depth) and of stack loops in the tree builder, allocation failure, that the listed invariants hold dynamically where no structural rule exists; 4 GB tendril length limit. Also decided: finish_numeric is total (R04.8); end() un-consumes into the queue it runs (R04.5). Round 6: the meta scanner never indexes with offsets found in a re-sized copy (R04.9). Round 8: R04.7 follows helper results (process_chars_in_table -> in table text) when looking for cycles of non-consuming transfers; R04.10 = R02.10 (head / td / th context element resets to in body); end() runs before eof_step (R04.5).',
     "technique": 'panic-site inventory over MIR (resolved callees) + cycle detection on flattened transition tables and on the call graph',
 }
 LEVEL = "other"
